@@ -3,19 +3,22 @@
 and writes /verif/seeded/RESULTS.md."""
 import os, json, subprocess, sys
 rows=[]
-only = sys.argv[1:] 
+only = sys.argv[1:]
+# the changes are applied to a scratch worktree of /repo's HEAD, so /repo itself stays untouched
+WT='/var/tmp/seed-wt'
+subprocess.run(['git','-C','/repo','worktree','remove','--force',WT],capture_output=True)
+subprocess.run(['git','-C','/repo','worktree','add','--detach',WT,'HEAD'],check=True,capture_output=True)
 for sid in sorted(os.listdir('/verif/seeded')):
     d=f'/verif/seeded/{sid}'
     if not os.path.isdir(d): continue
     if only and not any(o in sid for o in only): continue
     meta=json.load(open(f'{d}/meta.json'))
     prop=meta['property']
-    assert subprocess.run(['git','-C','/repo','status','--porcelain'],capture_output=True,text=True).stdout.strip()=='' , 'repo dirty'
-    subprocess.run(['git','-C','/repo','apply',f'{d}/patch.diff'],check=True)
+    subprocess.run(['git','-C',WT,'apply',f'{d}/patch.diff'],check=True)
     try:
-        r=subprocess.run(['/verif/bin/hvc','check','-property',prop,'-noevidence'],capture_output=True,text=True,env=dict(os.environ,HVC_REPLAYDIR='/var/tmp/hvc-seed-replay'))
+        r=subprocess.run(['/verif/bin/hvc','check','-root',WT,'-property',prop,'-noevidence'],capture_output=True,text=True,env=dict(os.environ,HVC_REPLAYDIR='/var/tmp/hvc-seed-replay'))
     finally:
-        subprocess.run(['git','-C','/repo','checkout','--','.'],check=True)
+        subprocess.run(['git','-C',WT,'checkout','--','.'],check=True)
     viol=[l for l in r.stdout.splitlines() if l.startswith('VIOLATION')]
     obl=sorted({l.split('obligation=')[1].split(' reason=')[0] for l in viol if 'obligation=' in l})
     confirmed=any('no-failing-input-found' not in l for l in viol)
@@ -24,6 +27,7 @@ for sid in sorted(os.listdir('/verif/seeded')):
     json.dump(meta,open(f'{d}/meta.json','w'),indent=1)
     print(rows[-1][:4])
 subprocess.run('rm -rf /var/tmp/hvc-seed-replay',shell=True)
+subprocess.run(['git','-C','/repo','worktree','remove','--force',WT],capture_output=True)
 if not only:
     with open('/verif/seeded/RESULTS.md','w') as f:
         f.write('# Seeded changes (independently written property-breaking edits) vs. the checks\n\n| seed | property | result | replayed on real code | failed obligations (first 3) | change |\n|---|---|---|---|---|---|\n')
